@@ -5,7 +5,7 @@ import z3
 
 from mysensors import persistence as P
 from mysensors import sensor as S
-from pyvc.contract import contract
+from pyvc.contract import contract, own_container
 from pyvc.values import ModelFn, Obj, Opaque
 
 PERSISTED = ("sensor_id", "type", "sketch_name", "sketch_version", "battery_level", "protocol_version", "heartbeat")
@@ -181,6 +181,11 @@ class PickleSensor:
         and fresh.heartbeat == s.heartbeat
         and fresh.children is s.children,
         "transient-reset": lambda old, s, fresh, result: not fresh.new_state and not fresh.queue and not fresh.reboot,
+        # ... and reset to containers of the loaded node's own: nothing a later node, or a later load, shares
+        "transient-own": lambda old, s, fresh, result: own_container(fresh.new_state)
+        and own_container(fresh.queue)
+        and fresh.new_state is not s.new_state
+        and fresh.queue is not s.queue,
         "source-untouched": lambda old, s, fresh, result: s.battery_level == old.s.battery_level and s.reboot == old.s.reboot,
     }
 
